@@ -758,9 +758,9 @@ func TestVerif_C33(t *testing.T) {
 		ref := c33NewRef()
 		var enc qpackEncoder
 		enc.init()
-		c.Rule("roundtrip: every list of <= 3 (thorough: 4) fields over a 21-entry alphabet (static full match / name-only at indices on both sides of the 4- and 6-bit prefix limits, literal names of 6/7/8 bytes, mixed case, non-ASCII, empty name, raw values of 126/127/128 bytes, Huffman values of 125/128 encoded bytes, Huffman name, two pseudo headers) x {mayIndex, neverIndex} per field, encoded by the real encoder and decoded by the real decoder from a real QUIC stream as one HEADERS frame; decode: the section prefix 00 00 followed by every byte string of length <= 2 (thorough: and every 3-byte string whose last byte is in a 48-value alphabet), every 2-byte section prefix over a boundary alphabet with and without a following line, every static index 0..130 in both referencing forms, and constructed malformed lines; non-trivial = the real decoder's accept/reject verdict, decoded lines and consumed byte count were compared with the reference decoder")
+		c.Rule("roundtrip: every list of <= 3 (thorough: 4) fields over a 21-entry alphabet (static full match / name-only at indices on both sides of the 4- and 6-bit prefix limits, literal names of 6/7/8 bytes, mixed case, non-ASCII, empty name, raw values of 126/127/128 bytes, Huffman values of 125/128 encoded bytes, Huffman name, two pseudo headers) x {mayIndex, neverIndex} per field, encoded by the real encoder and decoded by the real decoder from a real QUIC stream as one HEADERS frame; decode: the section prefix 00 00 followed by every byte string of length <= 2 (thorough: and every 3-byte string whose last byte is in a 48-value alphabet), every 2-byte section prefix over a boundary alphabet with and without a following line, every static index 0..130 in both referencing forms, constructed malformed lines, and oversized prefixed integers: at every integer site of a field section (Required Insert Count 8-bit, Delta Base 7-bit, indexed line 6-bit, name reference 4-bit, literal name length 3-bit, value length 7-bit; every flag combination of the first octet) and every small value k of a per-site boundary set, the section that is well-formed for k with the integer replaced by k+2^w, w in {31,32,62,63,64,65,70} (9-, 10- and 11-octet continuations, among them the top 2^n-1 values of uint64 for which continuation + prefix mask wraps to k), plus 2^62-1, 2^62, 2^63-1, 2^63, 2^64-1, 2^64 and the continuations 2^62-1, 2^62, 2^63-1, 2^63, 2^64-1, next to the plain encoding of k; non-trivial = the real decoder's accept/reject verdict, decoded lines and consumed byte count were compared with the reference decoder")
 		c.Assume("hpack's Huffman *encoder* tables are trusted (the reference Huffman decoder derives its code table from them; the decoding algorithm is independent)")
-		c.Assume("a Sign bit or non-zero Delta Base with Required Insert Count 0, and prefixed integers padded with more than 9 continuation octets, are left open by the property: only safety, byte accounting and (if accepted) the decoded lines are checked for them")
+		c.Assume("a Sign bit or non-zero Delta Base (of any size, including integers beyond 64 bits) with Required Insert Count 0, and prefixed integers padded with more than 9 continuation octets that carry no value bits, are left open by the property: only safety, byte accounting and (if accepted) the decoded lines are checked for them; every other prefixed integer >= 2^62 must be rejected (non-zero Required Insert Count / index beyond the table / string longer than the section), whatever it is congruent to modulo 2^32 or 2^64")
 		c.Assume("field names with ASCII control characters are not in the alphabet (the encoder skips them like non-ASCII names; the property only mentions non-ASCII)")
 		c.Assume("error *codes* of rejections are not checked, only that the section is rejected")
 
@@ -1123,10 +1123,10 @@ func c33AppendBigPrefixedInt(b []byte, first byte, n uint, v *big.Int) []byte {
 // k + 2^63 is a 9-octet varint below 2^63 when k < 2^n - 1 and a 10-octet one
 // otherwise; that of k + 2^64 is a 10-octet varint in the top 2^n - 1 values of
 // uint64 (last octet 0x01) when k < 2^n - 1 and exceeds 64 bits otherwise.
-// Added to these are the values 2^62-1, 2^62, 2^63-1, 2^63, 2^64-1 themselves
-// and the continuations 2^63-1, 2^63, 2^64-1 (the largest 9-octet and the
-// smallest and largest 64-bit 10-octet varints), and the plain encoding of k as
-// the accepted side. Every oversized integer is >= 2^31 and so must be
+// Added to these are the values 2^62-1, 2^62, 2^63-1, 2^63, 2^64-1, 2^64
+// themselves and the continuations 2^62-1, 2^62, 2^63-1, 2^63, 2^64-1 (among
+// them the largest 9-octet and the smallest and largest 64-bit 10-octet
+// varints), and the plain encoding of k as the accepted side. Every oversized integer is >= 2^31 and so must be
 // rejected at every place (non-zero Required Insert Count, index beyond the
 // 99-entry table, string longer than the section) except Delta Base, which the
 // property leaves open.
